@@ -25,6 +25,7 @@ RULE = ("random sequences rich / poor in S,T,Y (none, all, last residue S/T/Y, .
 RULE += ("; added after the mutation rounds: length 6-9 S/T/Y-rich sequences; 130 ignored positions on one object before the ordinary operations; the first cases of every shard are judged again at its end")
 RULE += ("; round 5: distributions over 7, 9, 10 (thorough up to 11) sites")
 RULE += ("; round 8: position lists of one 0/1 entry per residue; positions beyond 64 bits")
+RULE += ("; round 9: shuffled copies of objects with sites (carry none, setting theirs leaves the parent alone); later requests naming all held sites in another order")
 EXHAUSTIVE = {"quick": False, "thorough": False}
 ASSUMPTIONS = [
     "warning filters that escalate warnings to errors are not part of the driven environment (a library may legitimately warn)",
